@@ -2,8 +2,8 @@ package sim
 
 import (
 	"fmt"
-	"syscall"
 	"strings"
+	"syscall"
 	"testing"
 	"testing/synctest"
 	"time"
